@@ -191,7 +191,7 @@ pub fn run(r: &mut Runner) -> &'static str {
     r.rule = "inputs: the v2 control space (both control bytes x declared length x bytes-present relation) by enumeration over a buffer of seed-derived \
               payload bytes, every corruption of every signature byte, random valid headers (+- trailer), near-miss mutants, random bytes; oracle: \
               table-driven reference R-V2 in both directions plus exact decode. non-trivial = inputs carrying the full 12-byte signature \
-              (they pass the first gate); in the enumeration stage = cases whose control bytes have at most one invalid nibble (distinct by construction)"
+              (they pass the first gate); in the enumeration stage = cases whose control bytes have at most one invalid nibble (distinct by construction) Added later: all pairs and triples of wrong signature bytes, buffers of 64-192 KiB behind a header, chains and a reused read buffer at rotating (unaligned) offsets, the auto-detecting route for well-formed headers."
         .into();
     r.assumptions.push("R-V2 (harness/src/oracle/v2.rs) transcribes the statement of C02".into());
 
